@@ -5,6 +5,7 @@ import (
 	"errors"
 	"fmt"
 	"io"
+	"net/http"
 	"os"
 
 	"pgregory.net/rapid"
@@ -33,11 +34,15 @@ type ScriptReader struct {
 	zeroRun         int
 	NoCloser        bool
 	CloseErr        error // if set, Close reports this error (the call is still counted)
+	BodyClosed      bool  // the source is an HTTP body its owner has already closed: every Read reports http.ErrBodyReadAfterClose
 }
 
 func (r *ScriptReader) Read(p []byte) (int, error) {
 	if r.Closes > 0 {
 		r.ReadsAfterClose++
+	}
+	if r.BodyClosed {
+		return 0, http.ErrBodyReadAfterClose
 	}
 	if len(p) == 0 {
 		return 0, nil
